@@ -2,7 +2,10 @@ package io
 
 import (
 	"bytes"
+	"errors"
 	"io"
+
+	zerr "github.com/DemoHn/Zn/pkg/error"
 )
 
 // ByteStream - import a string as code source
@@ -22,9 +25,13 @@ func NewByteStream(b []byte) *ByteStream {
 }
 
 func (b *ByteStream) ReadAll() ([]rune, error) {
-	data, _, err := readRune(b.reader, b.encBuffer, b.length)
+	data, remains, err := readRune(b.reader, b.encBuffer, b.length)
 	if err != nil {
 		return []rune{}, err
+	}
+	// bytes left over at the end of the text: a truncated multi-byte character
+	if len(remains) > 0 {
+		return []rune{}, zerr.ReadFileError(errors.New("文本内容不是有效的 utf-8 编码"), " <buffer> ")
 	}
 	return data, nil
 }
